@@ -34,23 +34,42 @@ LEAF_RUST = {"C": "C", "N": "N", "Str": "str", "Sl": "[C]"}
 
 
 # ---------------------------------------------------------------- types
-def rust_ty(t, named=False):
+def rust_ty(t, named=False, param=False):
     """named: borrows of self are spelled with the receiver's NAMED lifetime (`fn f<'s>(&'s self) -> .. &'s T ..`) instead of
     the elided one; for the macro's analysis both are the same borrow of self (output.rs analyze_lifetime), model: LtElided"""
     k = t[0]
     if k == "own": return t[1]
-    if k == "ref": return (("&'s " if named else "&") if t[1] == "e" else "&'static ") + LEAF_RUST[t[2]]
-    if k == "opt": return f"Option<{rust_ty(t[1], named)}>"
-    if k == "vec": return f"Vec<{rust_ty(t[1], named)}>"
-    if k == "poll": return f"Poll<{rust_ty(t[1], named)}>"
-    if k == "res": return f"Result<{rust_ty(t[1], named)}, {rust_ty(t[2], named)}>"
+    if k == "ref": return (("&'s " if named else "&") if t[1] == "e" else ("&'a " if param else "&'static ")) + LEAF_RUST[t[2]]
+    if k == "opt": return f"Option<{rust_ty(t[1], named, param)}>"
+    if k == "vec": return f"Vec<{rust_ty(t[1], named, param)}>"
+    if k == "poll": return f"Poll<{rust_ty(t[1], named, param)}>"
+    if k == "res": return f"Result<{rust_ty(t[1], named, param)}, {rust_ty(t[2], named, param)}>"
     if k == "tup":
-        return "(" + ", ".join(rust_ty(x, named) for x in t[1]) + ("," if len(t[1]) == 1 else "") + ")"
+        return "(" + ", ".join(rust_ty(x, named, param) for x in t[1]) + ("," if len(t[1]) == 1 else "") + ")"
     raise ValueError(t)
 
 
 def sig_of(rust):
+    if "&'a " in rust:
+        # the result borrows from a PARAMETER (lifetime 'a names an input): for the macro that is a reference the mock cannot lend from
+        # itself - output.rs determine_reference_ownership classifies it like `&'static` (the configured value must be 'static)
+        return f"fn f<'a>(&self, p: &'a C) -> {rust}"
     return f"fn f<'s>(&'s self) -> {rust}" if "&'s " in rust else f"fn f(&self) -> {rust}"
+
+
+def has_elided_ref(t):
+    return (t[0] == "ref" and t[1] == "e") or any(has_elided_ref(x) for x in t[1:] if isinstance(x, tuple)) or \
+        (t[0] == "tup" and any(has_elided_ref(x) for x in t[1]))
+
+
+def param_variants(infos, limit):
+    """for accepted types whose references are all `&'static`: the same type with the references borrowed from a parameter"""
+    out = []
+    for i in infos:
+        r = rust_ty(i["ty"], param=True)
+        if i["accept"] and not i.get("named") and r != i["rust"] and not has_elided_ref(i["ty"]) and len(out) < limit:
+            out.append(dict(i, rust=r, param=True))
+    return out
 
 
 def named_variants(infos, limit):
@@ -411,7 +430,7 @@ def analyse_types(types):
 # ---------------------------------------------------------------- Rust side
 HDR = ("#![allow(dead_code, unused_imports)]\nuse unimock::*;\nuse std::task::Poll;\n"
        "#[derive(Clone, Debug, PartialEq, Eq)] pub struct C(pub u32);\n#[derive(Debug, PartialEq, Eq)] pub struct N(pub u32);\n"
-       "pub type Str = String;\npub type Sl = Vec<C>;\n")
+       "pub type Str = String;\npub type Sl = Vec<C>;\npub static PARAM: C = C(0);\n")
 
 
 def write_gen_rs(infos):
@@ -419,8 +438,10 @@ def write_gen_rs(infos):
     parts = ["// generated by vlib/props/C17.py -- do not edit", "use crate::obs::*;", "use std::task::Poll;", "use unimock::*;", ""]
     arms = []
     for k, inf in enumerate(infos):
-        blk = lambda tag, n, chain: (f"    {{ let v: In = Build::build(&mut Toks {{ t: toks, pos: 0 }}); "
-                                     f"let u = Unimock::new(M{k}::f.{chain}); crate::request!(out, \"{tag}\", {n}, u, T{k}); }}")
+        par = "&'a " in inf["rust"]
+        blk = lambda tag, n, chain, par=par: (f"    {{ let v: In = Build::build(&mut Toks {{ t: toks, pos: 0 }}); "
+                                              f"let u = Unimock::new(M{k}::f.{chain.replace('matching!()', 'matching!(_)') if par else chain}); "
+                                              f"crate::request!(out, \"{tag}\", {n}, u, T{k}{', &PARAM' if par else ''}); }}")
         body = [f"#[unimock(api = M{k})]", f"pub trait T{k} {{ {sig_of(inf['rust'])}; }}",
                 f"pub fn run{k}(toks: &[String], out: &mut Vec<String>) {{", f"    type In = {inf['in']};",
                 f"    if toks.first().map(|s| s.as_str()) == Some(\"KIND\") {{ out.push(format!(\"K {{}}\", std::any::type_name::<<M{k}::f as MockFn>::OutputKind>())); return; }}",
@@ -472,6 +493,8 @@ def probe_programs(progs):
 
 
 def probe_src(rust, in_ty, chain="some_call(matching!()).returns(v)"):
+    if "&'a " in rust:
+        chain = chain.replace("matching!()", "matching!(_)")
     return (HDR + f"#[unimock(api = M)]\npub trait T {{ {sig_of(rust)}; }}\n"
             f"pub fn p(v: {in_ty}) {{ let _ = Unimock::new(M::f.{chain}); }}\n")
 
@@ -527,7 +550,7 @@ def run(tier, seed):
     obligations = C.proof_obligations("C17", MODULE, THEOREMS)
     types = gen_types(rng, tier)
     infos = analyse_types(types)
-    infos += named_variants(infos, 40 if tier == "quick" else 400)
+    infos += named_variants(infos, 40 if tier == "quick" else 400) + param_variants(infos, 25 if tier == "quick" else 250)
     binary, acc, mism = build_accepted(infos)
     # acceptance boundary: what the model rejects must not compile; no multi-use path => each_call().returns must not compile
     rej = [i for i in infos if not i["accept"]]
